@@ -770,7 +770,7 @@ V2 = dict(
 OBLIGATIONS = [
     Ob("V1_fill_value", h_fill_value, fixed(*[dict(dtype=d) for d in ("uint8", "int16", "float32", "float64", "bool")]),
        descr="fill value: destination nodata, else source nodata, else NaN for floats, else zero, in the array's dtype", functions=("odc.geo._dask.resolve_fill_value",), setup=setup),
-    Ob("V3_chunk_work_any_selection", h_chunk_any_selection, tiered([dict(nsel=2, extra="none"), dict(nsel=3, extra="lead")], [dict(nsel=n, extra=e) for n in (1, 2, 3) for e in ("none", "lead")]),
+    Ob("V3_chunk_work_any_selection", h_chunk_any_selection, tiered([dict(nsel=2, extra="none"), dict(nsel=2, extra="lead")], [dict(nsel=n, extra=e) for n in (1, 2, 3) for e in ("none", "lead")]),
        descr="_do_chunked_reproject with a dependency list that is not a rectangle of tiles (rotated grids / other CRSs): the window is the crop of the source spanned by the listed tiles, every pixel of a listed tile sits where the crop says, from the block handed over for that tile",
        functions=("odc.geo._dask._do_chunked_reproject", "odc.geo.geobox.GeoboxTiles.clip", "odc.geo.roi.clip_tiles", "odc.geo._blocks.BlockAssembler.extract", "odc.geo.warp._rio_reproject"),
        bounds="3x3 source tiling with symbolic chunk sizes (1..40), 1..3 distinct listed tiles at symbolic positions, symbolic probed pixel; destination chunk rotated/sheared (fixed linear part), symbolic origins",
